@@ -25,9 +25,13 @@ Forms == {
   [id |-> 11, txt |-> "y ~ x + (f|g)",       resp |-> "y", icpt |-> TRUE,  terms |-> << <<"x">> >>, groups |-> << [e |-> <<>>, g |-> <<"g">>], [e |-> <<"f">>, g |-> <<"g">>] >>],
   [id |-> 12, txt |-> "y ~ (1|f:g) + (x|f)", resp |-> "y", icpt |-> TRUE,  terms |-> <<>>, groups |-> << [e |-> <<>>, g |-> <<"f", "g">>], [e |-> <<>>, g |-> <<"f">>], [e |-> <<"x">>, g |-> <<"f">>] >>],
   [id |-> 13, txt |-> "f ~ x",               resp |-> "f", icpt |-> TRUE,  terms |-> << <<"x">> >>, groups |-> <<>>],
-  [id |-> 14, txt |-> "x:f + f",             resp |-> "",  icpt |-> TRUE,  terms |-> << <<"x", "f">>, <<"f">> >>, groups |-> <<>>]
+  [id |-> 14, txt |-> "x:f + f",             resp |-> "",  icpt |-> TRUE,  terms |-> << <<"x", "f">>, <<"f">> >>, groups |-> <<>>],
+  [id |-> 15, txt |-> "y ~ f/g",             resp |-> "y", icpt |-> TRUE,  terms |-> << <<"f">>, <<"f", "g">> >>, groups |-> <<>>],
+  [id |-> 16, txt |-> "y ~ (1|g) + (x|f)",   resp |-> "y", icpt |-> TRUE,  terms |-> <<>>, groups |-> << [e |-> <<>>, g |-> <<"g">>], [e |-> <<>>, g |-> <<"f">>], [e |-> <<"x">>, g |-> <<"f">>] >>]
 }
 \* formula 14: the scanner's implicit intercept; x:f with margin x absent and f present
+\* formula 15: g nested in f (f full inside f:g, g reduced); formula 16: group terms of two different
+\* factors, so that a new group of g shifts the slices of the terms of f
 
 NumCol(v) == [kind |-> "num", v |-> v, decl |-> <<>>]
 CatCol(v) == [kind |-> "cat", v |-> v, decl |-> <<>>]
